@@ -191,9 +191,12 @@ def derived_tables(model, R):
         got = [_copy_of(a0, C.X), _copy_of(a1, C.X)]
         R.check(got == ['_objects', '_properties'], 'DERIVED', func, call[0], 'inverted: axes kept',
                 '_fromargs(copy of _objects, copy of _properties, ...)', str(got))
+        def axis_is(n, fld):
+            if (C.field_of(n) or (None, None))[1] == fld:
+                return True
+            return _copy_of(n, C.X) == fld       # a fresh copy of the axis has the same members
         _cells_product(C, cells, call[0], 'inverted', want_in=False,
-                       axes=(lambda n: (C.field_of(n) or (None, None))[1] == '_objects',
-                             lambda n: (C.field_of(n) or (None, None))[1] == '_properties'),
+                       axes=(lambda n: axis_is(n, '_objects'), lambda n: axis_is(n, '_properties')),
                        axes_text=('self._objects', 'self._properties'))
     else:
         R.unknown('DERIVED', func, func.node, 'inverted', 'not a single _fromargs call')
@@ -204,6 +207,13 @@ def _cells_product(C, cells, node, what, want_in, axes, axes_text):
     """{(o, p) for o in A for p in B if (o, p) [not] in pairs}"""
     R, func = C.R, C.func
     cells = C.X(cells)
+    setop = None
+    # {product} - pairs  ==  {.. if cell not in pairs};   {product} & pairs  ==  {.. if cell in pairs}
+    if isinstance(cells, ast.BinOp) and isinstance(cells.op, (ast.Sub, ast.BitAnd)) and isinstance(cells.left, ast.SetComp):
+        f_ = C.field_of(cells.right)
+        if f_ and f_[1] == '_pairs' and not any(g.ifs for g in cells.left.generators):
+            setop = 'not in' if isinstance(cells.op, ast.Sub) else 'in'
+            cells = cells.left
     if not isinstance(cells, ast.SetComp) or len(cells.generators) != 2:
         R.unknown('DERIVED', func, node, f'{what}: cells', f'not a two-generator set comprehension: {src(cells)[:80]}')
         return
@@ -226,6 +236,10 @@ def _cells_product(C, cells, node, what, want_in, axes, axes_text):
     R.check(ok_elt, 'DERIVED', func, node, f'{what}: cell is (object, property)', '(o, p)', f'({e0}, {e1})')
     filters = g0.ifs + g1.ifs
     ok = False
+    if setop is not None:
+        R.decided(setop == ('in' if want_in else 'not in'), 'DERIVED', func, node, f'{what}: cell filter',
+                  f'(o, p) {"in" if want_in else "not in"} self._pairs', f'product {"-" if setop == "not in" else "&"} self._pairs')
+        return
     if len(filters) == 1:
         t, neg = strip_not(filters[0])
         if isinstance(t, ast.Compare) and len(t.ops) == 1 and isinstance(t.ops[0], (ast.In, ast.NotIn)):
@@ -427,10 +441,17 @@ def conflicting(model, R):
         R.check(isinstance(n.op, op), 'CONFLICTS', func, n, f'{fld}: operator', '&' if op is ast.BitAnd else '^', src(n))
     # yields (o, p) iff in the symmetric difference, over shared objects x shared properties
     ys = [n for n in walk(func.body) if isinstance(n, ast.Yield)]
-    if len(ys) != 1 or not isinstance(ys[0].value, ast.Tuple):
+    local_cells = {s_.targets[0].id: s_.value for s_ in stmts(func.body) if isinstance(s_, ast.Assign) and isinstance(s_.targets[0], ast.Name)
+                   and isinstance(s_.value, ast.Tuple) and len(s_.value.elts) == 2}
+
+    def as_cell(n):
+        if isinstance(n, ast.Name) and n.id in local_cells:
+            return local_cells[n.id]
+        return n
+    if len(ys) != 1 or not isinstance(as_cell(ys[0].value), ast.Tuple):
         R.unknown('CONFLICTS', func, func.node, 'yield of the conflicting cell', 'not a single yield of a tuple')
     else:
-        cell = ys[0].value
+        cell = as_cell(ys[0].value)
         ctx = None
         from .c13 import _enclosing_ctx
         ctx = _enclosing_ctx(func, ys[0])
@@ -450,7 +471,7 @@ def conflicting(model, R):
                 t, neg = strip_not(s.test)
                 if isinstance(t, ast.Compare) and len(t.ops) == 1 and isinstance(t.ops[0], ast.In) and not neg:
                     rhs = env.expand(t.comparators[0])
-                    guard_ok = (src(t.left) == src(cell) and isinstance(rhs, ast.BinOp) and isinstance(rhs.op, ast.BitXor))
+                    guard_ok = (src(as_cell(t.left)) == src(cell) and isinstance(rhs, ast.BinOp) and isinstance(rhs.op, ast.BitXor))
         R.check(guard_ok, 'CONFLICTS', func, ys[0], 'yield guarded by membership in the symmetric difference',
                 'if (o, p) in (left._pairs ^ right._pairs)')
     func = model.func('definitions.ensure_compatible')
@@ -461,14 +482,21 @@ def conflicting(model, R):
     R.check(ok, 'CONFLICTS', func, func.node, 'ensure_compatible raises ValueError on any conflicting cell',
             'conflicts = list(conflicting_pairs(left, right)); if conflicts: raise ValueError')
     if ok:
-        guard = [s for s in stmts(func.body) if isinstance(s, ast.If) and raises[0] in s.body]
+        from ..astutil import context_of
         env = Env(func)
-        g_ok = False
-        if guard:
-            t, neg = strip_not(guard[0].test)
+        ctx = context_of(func.body, raises[0]) or []
+        conds = [c for c in ctx if c[0] in ('if', 'guard')]
+        verdict = None
+        if len(conds) == 1 and len(ctx) == 1:
+            t, neg = strip_not(conds[0][1])
             e = env.expand(t)
-            g_ok = not neg and any(n is calls[0] or src(n) == src(calls[0]) for n in ast.walk(e))
-        R.check(g_ok, 'CONFLICTS', func, guard[0] if guard else func.node, 'raise iff the conflict list is non-empty', 'if conflicts: raise')
+            if any(src(n) == src(calls[0]) for n in ast.walk(e)) and (isinstance(e, ast.Call) or isinstance(t, ast.Name)):
+                verdict = (conds[0][2] != neg)      # raise reached when the conflict list is truthy
+        if verdict is None:
+            R.unknown('CONFLICTS', func, raises[0], 'raise iff the conflict list is non-empty', ' / '.join(src(c[1]) for c in conds) or 'unconditional raise')
+        else:
+            R.decided(verdict, 'CONFLICTS', func, raises[0], 'raise iff the conflict list is non-empty', 'if conflicts: raise',
+                      'raises when the list is empty' if not verdict else '')
 
 
 def eq_complete(R, func, fields, roots, slot, allow_fallback=False):
